@@ -146,7 +146,8 @@ class BlockWriteHandler(AbstractWriteHandler):
         # Perform basic end-of-branch check (to see if we need an end, return or hold).
         # we don't need to do that on jumps or fallthrough
         assert self.last_handler_in_block is not None
-        if self._next_vertex is None and not self.last_handler_in_block.ended_on_jump:
+        # (the blocks of contexts and message switches can't hold it, the block around them adds it)
+        if self._next_vertex is None and not self.last_handler_in_block.ended_on_jump and not self._disallow_nested:
             if previous_vertex is None:
                 # ???
                 raise ValueError("Found end of branch, but no previous op...?")
